@@ -1,11 +1,12 @@
 (* C18  In-place rewrites are all-or-nothing.
    Theorem statements only.  Model: Model/AtomicFS.v (directory, operations, [safe_trace], the
    protocol of natefinch/atomic.WriteFile as used by `knut format` / `infer --inplace` / `fetch`).
-   Proofs: Proofs/AtomicFSProofs.v.
+   Model/AtomicFSConc.v (the concurrent command: jobs, labelled schedules, projections).
+   Proofs: Proofs/AtomicFSProofs.v, Proofs/AtomicFSInterleave.v.
    Assumed, not proved (DESIGN.md section 7, C18): rename(2) is atomic; the mapping of the
    binary's system calls to this alphabet (harness/c18.go) is right.                          *)
 From Coq Require Import List Bool Arith PeanoNat NArith.
-From Knut Require Import Model.AtomicFS Proofs.AtomicFSProofs.
+From Knut Require Import Model.AtomicFS Model.AtomicFSConc Proofs.AtomicFSProofs Proofs.AtomicFSInterleave.
 Import ListNotations.
 
 (* If the executable predicate accepts a trace, then after EVERY prefix of it - that is, wherever
@@ -60,13 +61,77 @@ Proof.
 Qed.
 Print Assumptions C18_files_independent.
 
-(* C18_files_independent_partial note.  The full statement for the concurrent command would be:
-   for every interleaving tr of the traces atomic_write tmp_i tgt_i new_i .. flt_i of files with
-   pairwise distinct targets and temporaries, and every i,
-     safe_trace tgt_i old_i new_i (filter (mentions . tgt_i or tmp_i) tr) = true  and the final
-     content of tgt_i is as in C18_protocol.
-   What is proved above is the per-operation frame property from which this follows by induction
-   over the interleaving; the induction itself is not carried out here. *)
+(* The concurrent command.  `knut format a b c` formats its arguments concurrently, one goroutine
+   per file.  For every list of jobs (tmp_i, tgt_i, old_i, formatted_i, chmod_i, splits_i, fault_i)
+   whose 2n paths are pairwise distinct, for EVERY labelled schedule ltr whose projection onto
+   label i is exactly the protocol trace format_file tmp_i tgt_i formatted_i chmod_i splits_i fault_i
+   of job i and which has no other labels - that is: every interleaving of the protocol traces,
+   every fault per file, every splitting into short writes, unparseable files included - and for
+   every prefix length k (wherever the process is interrupted): after the first k operations of the
+   schedule, from the directory in which every tgt_i holds old_i, nothing else exists and nothing is
+   open, every tgt_i holds old_i or its complete new contents; and after the whole schedule tgt_i
+   holds new_i if formatted_i = Some new_i and fault_i = NoFault (job_final), old_i otherwise, and
+   no tmp_i exists.  t0 is the parameter of fs_step that only WriteTgt uses (no protocol trace
+   contains a WriteTgt): the statement holds for every value of it. *)
+Theorem C18_interleaving : forall (jobs : list job) (ltr : list (nat * op)) (t0 : path),
+  NoDup (job_paths jobs) ->
+  (forall i, proj i ltr = match nth_error jobs i with Some j => job_trace j | None => [] end) ->
+  (forall k i j, nth_error jobs i = Some j ->
+     let f := fs_run t0 (map snd (firstn k ltr)) (fs_init_jobs jobs) in
+     content f (j_tgt j) = Some (j_old j) \/
+     (exists new, j_fmt j = Some new /\ content f (j_tgt j) = Some new)) /\
+  (forall i j, nth_error jobs i = Some j ->
+     let f := fs_run t0 (map snd ltr) (fs_init_jobs jobs) in
+     content f (j_tgt j) = Some (job_final j) /\ content f (j_tmp j) = None).
+Proof. exact interleaving. Qed.
+Print Assumptions C18_interleaving.
+
+(* The same for a directory f0 that may hold other files (other journals, the training file of
+   `knut infer --inplace -t training target`), some of them open: it is enough that every tgt_i
+   holds old_i, no tmp_i exists and none of the 2n paths is open.  In addition every path that
+   belongs to no job keeps its contents and its handles at every point of every schedule. *)
+Theorem C18_interleaving_any_dir : forall (jobs : list job) (ltr : list (nat * op)) (t0 : path) (f0 : fs),
+  NoDup (job_paths jobs) ->
+  (forall i, proj i ltr = match nth_error jobs i with Some j => job_trace j | None => [] end) ->
+  (forall i j, nth_error jobs i = Some j ->
+     content f0 (j_tgt j) = Some (j_old j) /\ content f0 (j_tmp j) = None /\
+     is_open f0 (j_tgt j) = false /\ is_open f0 (j_tmp j) = false) ->
+  (forall k i j, nth_error jobs i = Some j ->
+     let f := fs_run t0 (map snd (firstn k ltr)) f0 in
+     content f (j_tgt j) = Some (j_old j) \/
+     (exists new, j_fmt j = Some new /\ content f (j_tgt j) = Some new)) /\
+  (forall i j, nth_error jobs i = Some j ->
+     let f := fs_run t0 (map snd ltr) f0 in
+     content f (j_tgt j) = Some (job_final j) /\ content f (j_tmp j) = None) /\
+  (forall k q, ~ In q (job_paths jobs) ->
+     let f := fs_run t0 (map snd (firstn k ltr)) f0 in
+     content f q = content f0 q /\ is_open f q = is_open f0 q).
+Proof. exact interleaving_any_dir. Qed.
+Print Assumptions C18_interleaving_any_dir.
+
+(* the hypotheses of C18_interleaving are satisfiable: three files - one is rewritten, the write of
+   the second fails after one byte, the third does not parse - and a schedule that alternates
+   between the first two goroutines *)
+Definition C18_ex_jobs : list job :=
+  [ mkJob 10 0 [1%N; 2%N] (Some [3%N; 4%N; 5%N]) true [1] NoFault;
+    mkJob 11 1 [6%N] (Some [7%N; 8%N]) false [] (FailWrite 1);
+    mkJob 12 2 [9%N] None false [] NoFault ].
+Definition C18_ex_schedule : list (nat * op) :=
+  [ (0, Create 10); (1, Create 11); (0, Write 10 [3%N]); (1, Write 11 [7%N]); (1, Other);
+    (0, Write 10 [4%N; 5%N]); (0, Fsync 10); (1, Close 11); (0, Close 10); (0, Chmod 10);
+    (1, Unlink 11); (0, Rename 10 0); (0, Other) ].
+Example C18_interleaving_example :
+  NoDup (job_paths C18_ex_jobs) /\
+  (forall i, proj i C18_ex_schedule =
+             match nth_error C18_ex_jobs i with Some j => job_trace j | None => [] end) /\
+  map (content (fs_run 99 (map snd C18_ex_schedule) (fs_init_jobs C18_ex_jobs))) [0; 1; 2; 10; 11; 12] =
+    [Some [3%N; 4%N; 5%N]; Some [6%N]; Some [9%N]; None; None; None].
+Proof.
+  split; [|split].
+  - repeat constructor; simpl; intuition discriminate.
+  - intros [|[|[|[|i]]]]; reflexivity.
+  - vm_compute. reflexivity.
+Qed.
 
 (* the hypotheses are satisfiable, and the checker does reject the unsafe way of writing *)
 Example C18_example_ok :
